@@ -23,7 +23,7 @@ checks, na = [], []
 for p in props:
     pid = p["id"]
     m = meta["checks"].get(pid, {})
-    if pid in reg and not m.get("withdrawn"):
+    if pid in reg and pid in meta["checks"] and not m.get("withdrawn"):
         c = {
             "property_id": pid,
             "quick_cmd": "./check %s --tier quick" % pid,
